@@ -1,4 +1,5 @@
-"""C19 — invalid programs are rejected with a diagnostic (lexical clause only)."""
+"""C19 — invalid programs are rejected with a diagnostic: lexical clause over all short strings,
+program-shape clauses over variant catalogues compiled whole under CrossHair."""
 from . import c15
 
 FUNCTIONS = [
@@ -6,100 +7,93 @@ FUNCTIONS = [
 ]
 ASSUMPTIONS = [
     'clause "syntactically unbalanced input":  For every string of length <=3 (quick) / <=4 (thorough) over all code points, RemoveComments raises ParsingException("Parenthesis matches nothing") exactly when an independent scanner-state specification written in the harness finds a closing bracket that matches nothing in code state, ParsingException("End of line in string") exactly for a newline inside a "..." literal, and never any other exception',
-    'clauses "aggregation without distinct" and "inconsistent distinct": enumerated configurations only (which of: aggregated named argument, second aggregated argument, value aggregation, distinct; distinct on each of two rules)',
-    'NOT decided here (statements about program shape with no data for a solver to range over, and a whole compilation costs >100 s per CrossHair path): range restriction, recursion without a base case, functor applied to a non-argument, annotation of a missing predicate',
+    'program-shape clauses: six catalogues of variants (lv/checks/c19_variants.py), each variant marked valid or invalid by construction: range restriction (head / comparison / negated-comparison / expression variables, bound by atom, assignment or `in`), unbound variables of inlined predicates next to a caller variable of the same name, functor arguments the functor does (not) depend on (1 and 2 arguments, after an earlier application), recursion with and without a base case, annotations of existing / missing predicates (@OrderBy @Limit @NoInject @With @NoWith), aggregation / distinct coherence.  The whole compilation of each variant runs under CrossHair with the variant index symbolic: solver-driven enumeration, claimed only on "Confirmed over all paths"; a diagnostic must be one of the four types logica.py catches, any other exception is a violation',
+    'cuts in the shape harnesses: programs are parsed concretely by the real parser at harness import; parsing of the dialect library text inside LogicaProgram.__init__ is memoised; the CSV function table is replaced by two entries (replays run without these cuts)',
+    'not claimed: @Ground / @Recursive naming an undefined predicate (accepted by design / ignored), diagnostics text beyond its exception type',
 ]
 
 
-SHAPE = r'''
-from parser_py import parse
-from compiler import universe, rule_translate, functors
-
-
-def k_agg_needs_distinct(named_agg: bool, distinct: bool, two: bool, value_agg: bool) -> bool:
-  """
-  post: _
-  """
-  fields = ['x']
-  if named_agg:
-    fields.append('a? += y')
-    if two:
-      fields.append('b? Max= y')
-  else:
-    fields.append('a: y')
-  head = 'P(%s)' % ', '.join(fields)
-  if value_agg:
-    head += ' Min= y'
-  if distinct:
-    head += ' distinct'
-  text = head + ' :- E(x, y)'
-  try:
-    parse.ParseRule(parse.HeritageAwareString(text))
-    rejected = False
-  except parse.ParsingException:
-    rejected = True
-  # an aggregated argument needs `distinct`, unless the rule aggregates its value (which implies it)
-  return rejected == (named_agg and not distinct and not value_agg)
-
-
-def distinct_consistency(d1, d2):
-  text = ('@Engine("sqlite");\nQ(x) %s:- E(x, y);\nQ(y) %s:- F(x, y);\n' %
-          ('distinct ' if d1 else '', 'distinct ' if d2 else ''))
-  parse.TOO_MUCH = 'too much'
-  try:
-    rules = parse.ParseFile(text)['rule']
-    universe.LogicaProgram(rules)
-    rejected = False
-  except (parse.ParsingException, rule_translate.RuleCompileException, functors.FunctorError):
-    rejected = True
-  return rejected == (d1 != d2)
-
-
-def k_distinct_consistency_first_distinct(d2: bool) -> bool:
-  """
-  post: _
-  """
-  return distinct_consistency(True, d2)
-
-
-def k_distinct_consistency_first_plain(d2: bool) -> bool:
-  """
-  post: _
-  """
-  return distinct_consistency(False, d2)
-'''
-SHAPE_NAMES = ['k_agg_needs_distinct', 'k_distinct_consistency_first_distinct', 'k_distinct_consistency_first_plain']
+def shape_source():
+  from .. import variants
+  from . import c19_variants as CV
+  src = variants.prelude(True)
+  names = []
+  for name, fn in CV.GROUPS:
+    n, sfn = variants.reject_kernel(name, fn())
+    names.append(n)
+    src += sfn
+  return src, names
 
 
 def replay_shape(name, args):
-  import os, subprocess, sys, tempfile, shutil
+  """the variant CrossHair points at is compiled again by the real compiler in a fresh
+  interpreter, without any of the harness's cuts"""
+  import os, subprocess, sys, tempfile, shutil, re
   from .. import kern
+  from . import c19_variants as CV
+  group = name[2:]
+  variants_list = dict(CV.GROUPS)[group]()
+  m = re.search(r'-?\d+', args or '')
+  i = int(m.group(0)) if m else 0
+  text, pred, must_reject = variants_list[i]
   d = tempfile.mkdtemp(prefix='logica_verif_c19r_')
   try:
     p = os.path.join(d, 'replay.py')
     with open(p, 'w') as f:
-      f.write(kern.PRELUDE % os.environ.get('VERIF_REPO', '/repo') + SHAPE +
-              '\nimport sys\nsys.exit(0 if %s(%s) else 7)\n' % (name, args))
+      f.write(kern.PRELUDE % os.environ.get('VERIF_REPO', '/repo') + r"""
+import sys
+from parser_py import parse
+from compiler import universe, rule_translate, functors
+from type_inference.research import infer
+text, pred, must_reject = %r, %r, %r
+try:
+  universe.LogicaProgram(parse.ParseFile(text)['rule']).FormattedPredicateSql(pred)
+  got = 'sql'
+except (parse.ParsingException, rule_translate.RuleCompileException, functors.FunctorError, infer.TypeErrorCaughtException) as e:
+  got = 'diagnostic'
+except Exception as e:
+  got = 'internal ' + type(e).__name__
+print(got)
+sys.exit(0 if (got == 'diagnostic') == must_reject and not got.startswith('internal') else 7)
+""" % (text, pred, must_reject))
     r = subprocess.run([sys.executable, p], stdout=subprocess.PIPE, stderr=subprocess.STDOUT, text=True)
-    return (r.returncode != 0, 'diagnostic for aggregation/distinct coherence differs from the rule (exit %d)' % r.returncode,
-            {'call': '%s(%s)' % (name, args), 'output': r.stdout[-800:]})
+    what = ('an invalid program is compiled to SQL without a diagnostic' if must_reject else
+            'a valid program is rejected')
+    return (r.returncode == 7, '%s (%s)' % (what, r.stdout.strip()[-80:]),
+            {'program': text, 'predicate': pred, 'must_be_rejected': must_reject, 'outcome': r.stdout[-300:],
+             'variant_group': group, 'variant_index': i})
   finally:
     shutil.rmtree(d, ignore_errors=True)
 
 
 def shape_part(out):
   from .. import kernels
-  kernels.run_kernels(out, 'aggregation / distinct coherence', SHAPE, SHAPE_NAMES, 1500, replay_shape,
-                      extra_args=['--per_path_timeout', '600'])
+  from . import c19_variants as CV
+  src, names = shape_source()
+  res = kernels.run_kernels(out, 'program-shape diagnostics', src, names, 900, replay_shape)
+  ok = [n for n in names if res[n].get('verdict') == 'confirmed' and res[n].get('twin') == 'reachable']
+  out.coverage['evaluations'] = out.coverage.get('evaluations', 0) + sum(len(fn()) for g, fn in CV.GROUPS)
+  out.coverage['distinct_nontrivial'] = out.coverage.get('distinct_nontrivial', 0) + sum(
+      len(fn()) for g, fn in CV.GROUPS if 'k_' + g in ok)
+  out.coverage['rule'] = ('one case = one lexical lemma over all strings within its bound, or one program variant of a shape '
+                          'catalogue compiled whole under CrossHair; a variant counts when its catalogue kernel is "Confirmed over all paths" '
+                          'with a violated reachability twin')
+  out.coverage['functions_encoded'] = list(out.coverage.get('functions_encoded', [])) + [
+      'compiler/universe.py: LogicaProgram.__init__ (UnfoldRecursion, RunMakes, Annotations, CheckAnnotatedObjects, CheckDistinctConsistency), FormattedPredicateSql, RunInjections (whole compilation under CrossHair, dialect-library parse memoised)',
+      'compiler/rule_translate.py: ExtractRuleStructure, ElliminateInternalVariables (assert_full_ellimination and injected mode)',
+      'compiler/functors.py: MakeAll, CallFunctor (bad_args), UnfoldRecursions, RemoveRulesProvenToBeNil',
+      'parser_py/parse.py: ParseFile on every variant (concretely, at harness import): CheckAggregationCoherence, MultiBodyAggregation',
+  ]
+  out.coverage['shape_variants'] = {g: len(fn()) for g, fn in CV.GROUPS}
+  out.coverage['shape_variant_samples'] = [dict(zip(('program', 'predicate', 'must_be_rejected'), fn()[0])) for g, fn in CV.GROUPS]
 
 
 def run():
   return c15.run_lemmas('C19', 'c19', FUNCTIONS, ASSUMPTIONS,
                         'CrossHair executes the real RemoveComments on every string within the bound and compares the '
                         'raised diagnostic with an independent lexical specification; claimed only on "Confirmed over all paths".  '
-                        'Two further clauses are decided by solver-driven enumeration of their (tiny) configuration spaces on the real '
-                        'ParseRule / ParseFile + LogicaProgram: an aggregated argument without `distinct` (16 configurations) and '
-                        'inconsistent `distinct` among two rules of a predicate (4 configurations, ~130 s per path under CrossHair).',
+                        'The program-shape clauses are decided on variant catalogues: every variant is compiled whole by the real '
+                        'LogicaProgram + FormattedPredicateSql under CrossHair (2-4 s per path once the dialect library parse is memoised).',
                         extra_fn=shape_part)
 
 
